@@ -25,8 +25,8 @@ import (
 	hsubtle "github.com/tink-crypto/tink-go/v2/hybrid/subtle"
 	imaccmac "github.com/tink-crypto/tink-go/v2/internal/mac/aescmac"
 	imachmac "github.com/tink-crypto/tink-go/v2/internal/mac/hmac"
-	islhdsa "github.com/tink-crypto/tink-go/v2/internal/signature/slhdsa"
 	imldsa "github.com/tink-crypto/tink-go/v2/internal/signature/mldsa"
+	islhdsa "github.com/tink-crypto/tink-go/v2/internal/signature/slhdsa"
 	"github.com/tink-crypto/tink-go/v2/internal/verifharness/hlib"
 	"github.com/tink-crypto/tink-go/v2/keyderivation"
 	kwpsubtle "github.com/tink-crypto/tink-go/v2/kwp/subtle"
@@ -104,7 +104,9 @@ type macNoVerify struct {
 
 func (m macNoVerify) ComputePRF(data []byte, n uint32) ([]byte, error) { return m.f(data) }
 
-type streamPRF struct{ p keyderivation.VerifStreamingPRF }
+type streamPRF struct {
+	p keyderivation.VerifStreamingPRF
+}
 
 func (s streamPRF) ComputePRF(data []byte, n uint32) ([]byte, error) {
 	r, err := s.p.Compute(data)
